@@ -8,7 +8,7 @@ docs/http.md (it never looks at the regular expression the Router builds):
                                                 /:abc*  a path component 0 or more times
 
 Part "pairs"  every pattern of 0..4 segments over {a, ab, a.b, :x} (+ :x? :x+ :x* in last position)
-              alone in a Router x every request path of 0..5 segments over {a ab b a.b axb abc ''}
+              alone in a Router x every request path of 0..5 segments over {a ab b a.b axb abc A ''}
               with/without trailing slash (and a smaller set without leading slash): verdict,
               bindings, method isolation, dispatch status.
 Part "tables" Hypothesis: tables of 1..4 routes (pattern, method), registered in EVERY order, through
@@ -29,7 +29,7 @@ ID = "C16"
 LEVEL = "exploration"
 RULE = ("pairs: enumerated table (pattern x path): 596 patterns of 0..4 segments, non-final segment in "
         "{a, ab, a.b, :x}, final additionally in {:x?, :x+, :x*}; paths = every string lead + '/'.join(segs) + trail "
-        "with segs of 0..5 entries of {a, ab, b, a.b, axb, abc, ''}, trail in {'', '/'}, lead '/' "
+        "with segs of 0..5 entries of {a, ab, b, a.b, axb, abc, A, ''}, trail in {'', '/'}, lead '/' "
         "(lead '' for segs of 0..3 entries); each pattern alone in a Router, oracle = reference matcher written from "
         "the docstring grammar (verdict match / no match / unspecified, bindings). non-trivial pair = the reference "
         "says NO match although the path begins with '/' + the pattern's leading literal segment, or the pair "
@@ -52,7 +52,7 @@ ASSUMPTIONS = [
 BUDGET_S = {"quick": 60, "thorough": 600}
 
 LITS = ["a", "ab", "a.b"]
-PATH_ALPHA = ["a", "ab", "b", "a.b", "axb", "abc", ""]
+PATH_ALPHA = ["a", "ab", "b", "a.b", "axb", "abc", "A", ""]
 METHODS = ["GET", "DELETE", "POST", "PUT"]
 
 MATCH, NOMATCH, UNSPEC = "match", "nomatch", "unspecified"
@@ -404,7 +404,7 @@ def run_pairs(spec, ctx):
     ctx.sample({"part": "pairs", "patterns": mine[:3] + ["..."], "n_patterns": len(mine), "n_paths": len(paths), "paths": paths[40:46]})
     if spec["maxseg"] >= 5:
         ctx.exhaustive_sub.add("Router: 596 patterns (<= 4 segments over a, ab, a.b, :x; last also :x? :x+ :x*) x every path of "
-                               "<= 5 segments over {a, ab, b, a.b, axb, abc, ''} with/without trailing slash")
+                               "<= 5 segments over {a, ab, b, a.b, axb, abc, A, ''} with/without trailing slash")
 
 
 def pair_case(ctx, case):
@@ -461,7 +461,9 @@ def pattern_strategy(draw, lits, maxlen=4):
 
 def edit_literal(draw, lit, alpha):
     """a near miss of a literal segment"""
-    k = draw(st.integers(0, 6))
+    k = draw(st.integers(0, 7))
+    if k == 7:
+        return lit.upper() if draw(st.booleans()) else lit[:1].upper() + lit[1:]
     if k == 0:
         return lit + draw(st.sampled_from(["b", "c", "x", ".", "a"]))
     if k == 1:
@@ -556,7 +558,7 @@ def run_tables(spec, ctx):
 # ------------------------------------------------------------------ part "lits"
 WIDE_LITS = ["a", "ab", "a.b", "a+", "a+b", "c++", "a$", "$a", "a-b", "a_b", "a~", ".a", "b.", "a.b.c", "index.html", "v1.0"]
 WIDE_ALPHA = ["a", "ab", "b", "a.b", "axb", "aa", "aab", "a+", "a+b", "c++", "c", "cc", "a$", "a-b", "a_b", "a~", ".a", "xa",
-              "b.", "bx", "index.html", "indexXhtml", "v1.0", "v1x0", ""]
+              "b.", "bx", "index.html", "indexXhtml", "INDEX.HTML", "v1.0", "v1x0", "V1.0", "A", "AB", ""]
 
 
 def lits_case(ctx, case, count=True):
